@@ -83,7 +83,8 @@ def run(res, ctx):
     res.rule = ("crash monitor: every callee spelling occurring in bandit's examples + every blacklist qualified name + the names the plugins key on (%d callees) x argument-shape grammar "
                 "(0-3 positionals from %d shapes incl. starred, set displays with unhashable elements, walrus, lambdas; 0-2 keywords from %d keyed names with values from the same shapes; "
                 "**dict / **\"x\" / **f()) + %d statement shapes (defaults, handlers, string positions, SQL constructions, mark_safe data flows); quick: seeded sample per callee, thorough: "
-                "more per callee; every program is valid Python; a logged 'internal error', an escaped exception or a file demoted to 'skipped' is a violation; the Lean model's predicted "
+                "more per callee; + grammar-directed programs (harness/pygen.py: every statement, target and expression kind of the language around the names/calls the checks key on) "
+                "+ B703 data-flow programs with loop/with/handler targets of every kind; every program is valid Python; a logged 'internal error', an escaped exception or a file demoted to 'skipped' is a violation; the Lean model's predicted "
                 "crashes are compared with the real ones; non-trivial = distinct program") % (len(callees), len(POS_SHAPES), len(KEYWORDS), len(STATEMENTS))
     progs = []
     per = 14 if thorough else 4
@@ -110,6 +111,16 @@ def run(res, ctx):
             progs.append((src, callee))
     for st in STATEMENTS:
         progs.append(("import ssl\nfrom django.utils.safestring import mark_safe\n" + st + "\n", "stmt"))
+    # grammar-directed programs: every statement / target / expression kind around the names and calls the checks key on
+    import pygen
+    gp = pygen.programs(rng, 900 if thorough else 220)
+    res.extra["grammar_node_kinds"] = len(pygen.node_kinds(gp))
+    for src in gp:
+        progs.append((src, "grammar"))
+    # data-flow programs for the assignment walker of B703 (loop / with / handler targets of every kind)
+    from props import c17 as C17
+    for c in C17.gen_xss_fuzz(rng, 500 if thorough else 150):
+        progs.append((c.src, "xss-flow"))
     # keep only valid Python (the grammar can produce e.g. positional after **): invalid ones are not this property's business
     valid = []
     for src, tag in progs:
@@ -139,13 +150,20 @@ def run(res, ctx):
             for i, (src, tag) in enumerate(chunk):
                 r = real[i]
                 res.case(src, True, sample={"program": src, "internal_errors": r["errors"], "skipped": r["skipped"]} if (off + i) % 499 == 0 else None)
-                res.count("callee-kind:" + ("stmt" if tag == "stmt" else "call"))
+                res.count("callee-kind:" + (tag if tag in ("stmt", "grammar", "xss-flow") else "call"))
                 if r["errors"] or r["skipped"]:
                     res.violation("a check raised on a syntactically valid file (internal error logged / file skipped)",
                                   {"program": src, "crashed_checks": r["errors"], "skipped": r["skipped"]})
                 if model is not None:
                     if "error" in model[i]:
                         res.break_("driver-error", model[i]["error"])
+                    elif tag in ("grammar", "xss-flow"):
+                        # full correspondence (findings, locations, crashes) of the whole model on grammar-directed programs
+                        diff = C.compare_scan({"findings": r["findings"], "errors": C.crashed_tests(r["errors"])}, model[i], C.blacklist_ids())
+                        res.count("full-correspondence-programs")
+                        res.extra["full_correspondence_findings"] = res.extra.get("full_correspondence_findings", 0) + len(r["findings"])
+                        if diff:
+                            res.break_("correspondence:grammar", {"program": src, "diff": diff})
                     elif model[i].get("crashes"):
                         # the model predicts a crash the implementation does not have (or vice versa): correspondence
                         diff = C.compare_scan(r, model[i], C.blacklist_ids())
